@@ -155,6 +155,24 @@ func MonitorC02(w *plugin.World, step int) []hx.Violation {
 		}
 		return l
 	}
+	// an identity that requests ONE range list and already owns exactly one address inside it: "bound with exactly the
+	// IP it held before ... never given a different IP while the old one is still reserved" - neither filter nor bind
+	// may take a fresh address for it, however many configured ranges of a pool the requested range spans
+	if rr := plugin.PodRanges(pod); len(rr) == 1 && len(owned) == 1 && (kind == "filter" || kind == "bind") {
+		inside := false
+		for _, x := range rr[0] {
+			if x[0] <= owned[0].IP && owned[0].IP <= x[1] {
+				inside = true
+			}
+		}
+		if inside {
+			w.Mon["c02-hit:owning-inside-requested-range:"+kind] = true
+			if fr := freshFor(); len(fr) > 0 {
+				viol("fresh-ip-while-reserved-exists:requested-range", fmt.Sprintf("%q (policy %s) owned %s inside its requested range before the %s, which took %v for it as well",
+					key, polName(pol), plugin.IPStr(owned[0].IP), kind, ipStrs(fr)))
+			}
+		}
+	}
 	switch kind {
 	case "filter":
 		okRes := strings.HasPrefix(w.LastOp.Result, "ok nodes=")
